@@ -55,13 +55,16 @@ KANI_FILTER = r"""
 mod verif_c13_filter {
     use super::*;
     static mut VERDICT: [bool; 6] = [false; 6];
-    /// stand-in for Filter::is_match: filter k (an Exact string of length k) matches iff VERDICT[k]
+    static mut BASE: usize = 0;
+    /// stand-in for Filter::is_match: the filter stored at position p of the split vector matches iff VERDICT[p]
     fn verdict_of(f: &Filter, _s: &str) -> bool {
-        match f { Filter::Exact(e) => unsafe { VERDICT[e.len()] }, Filter::Regex(_) => false }
+        let p = (f as *const Filter as usize - unsafe { BASE }) / std::mem::size_of::<Filter>();
+        unsafe { VERDICT[p] }
     }
     /// THE RULE: selected iff no skip filter matches and (there are no positive filters or
     /// at least one matches) - for every order in which up to 5 filters were added and every
-    /// combination of per-filter verdicts
+    /// combination of per-filter verdicts. (That skip filters are exactly the entries before the
+    /// split index, whatever the insertion order, is verif_c13_split::splitvec_insert.)
     #[kani::proof]
     #[kani::unwind(8)]
     #[kani::stub(Filter::is_match, verdict_of)]
@@ -70,19 +73,20 @@ mod verif_c13_filter {
         unsafe { VERDICT = verdict; }
         let n: usize = kani::any(); kani::assume(n <= 5);
         let mut fs = FilterSet::default();
-        let mut positive = [false; 5];
+        fs.reserve_exact(5);
+        let mut n_skip = 0usize;
         for k in 0..5 {
             if k < n {
-                positive[k] = kani::any();
-                let f = Filter::Exact(String::from(&"xxxxx"[..k]));
-                if positive[k] { fs.include(f); } else { fs.exclude(f); }
+                let f = Filter::Exact(String::new());
+                if kani::any() { fs.include(f); } else { fs.exclude(f); n_skip += 1; }
             }
         }
+        assert!(fs.filters.split_index() == n_skip && fs.filters.all().len() == n);
+        unsafe { BASE = fs.filters.all().as_ptr() as usize; }
         let got = fs.is_match("some::path");
-        let (mut skip_hit, mut any_pos, mut pos_hit) = (false, false, false);
-        for k in 0..5 { if k < n {
-            if positive[k] { any_pos = true; if verdict[k] { pos_hit = true; } } else if verdict[k] { skip_hit = true; }
-        } }
+        let (mut skip_hit, mut pos_hit) = (false, false);
+        for p in 0..5 { if p < n && verdict[p] { if p < n_skip { skip_hit = true; } else { pos_hit = true; } } }
+        let any_pos = n_skip < n;
         assert!(got == (!skip_hit && (!any_pos || pos_hit)));
         kani::cover!(n == 5 && skip_hit); kani::cover!(n == 0); kani::cover!(any_pos && !pos_hit && !skip_hit);
     }
@@ -113,24 +117,13 @@ mod verif_c13_tree {
     static B: BenchEntry = BenchEntry { meta: meta("b"), bench: BenchEntryRunner::Plain(noop) };
     static ARGS: [&str; 2] = ["1", "22"];
 
-    /// tree  m { a, b[1, 22] }  with symbolic verdicts for the three cases
-    #[kani::proof]
-    #[kani::unwind(12)]
-    fn retain_small_tree() {
-        let t: [bool; 3] = kani::any();
-        let mut tree = vec![EntryTree::Parent { raw_name: "m", group: None, children: vec![
+    fn tree() -> Vec<EntryTree<'static>> {
+        vec![EntryTree::Parent { raw_name: "m", group: None, children: vec![
             EntryTree::Leaf { entry: AnyBenchEntry::Bench(&A), args: None },
             EntryTree::Leaf { entry: AnyBenchEntry::Bench(&B), args: Some(vec![&ARGS[0], &ARGS[1]]) },
-        ] }];
-        let mut unexpected = false;
-        let mut asked = [0u8; 3];
-        EntryTree::retain(&mut tree, |p| {
-            // the paths the property names: crate::module::name[::arg]
-            if p == "m::a" { asked[0] += 1; t[0] } else if p == "m::b::1" { asked[1] += 1; t[1] } else if p == "m::b::22" { asked[2] += 1; t[2] }
-            else { unexpected = true; false }
-        });
-        assert!(!unexpected);
-        assert!(asked[0] == 1 && asked[1] == 1 && asked[2] == 1);      // decided per case, once
+        ] }]
+    }
+    fn check_structure(tree: &Vec<EntryTree>, t: [bool; 3]) {
         let any = t[0] || t[1] || t[2];
         assert!(tree.is_empty() == !any);                              // group nodes appear exactly when a selected case lies below
         if any {
@@ -142,12 +135,46 @@ mod verif_c13_tree {
             assert!(b.is_some() == (t[1] || t[2]));
             if let Some(args) = b {
                 assert!(args.len() == t[1] as usize + t[2] as usize);
-                assert!(args.iter().any(|a| **a == "1") == t[1]);
-                assert!(args.iter().any(|a| **a == "22") == t[2]);
+                assert!(args.iter().any(|a| std::ptr::eq(**a, &ARGS[0])) == t[1]);
+                assert!(args.iter().any(|a| std::ptr::eq(**a, &ARGS[1])) == t[2]);
             }
             assert!(children.len() == t[0] as usize + (t[1] || t[2]) as usize);
         }
+    }
+    fn no_format(_args: std::fmt::Arguments) -> String { String::new() }
+
+    /// tree  m { a, b[1, 22] }: selection is decided per case (each runtime argument separately,
+    /// one filter question per case, none for inner nodes) and parents are pruned exactly when
+    /// nothing selected lies below. (format! is stubbed out here, so the questions are identified
+    /// by their order; the path TEXT is checked by retain_small_tree_paths in the thorough tier.)
+    #[kani::proof]
+    #[kani::unwind(6)]
+    #[kani::stub(alloc::fmt::format, no_format)]
+    fn retain_small_tree_structure() {
+        let t: [bool; 3] = kani::any();
+        let mut tree = tree();
+        let mut asked = 0usize;
+        EntryTree::retain(&mut tree, |_p| { let k = asked; asked += 1; if k < 3 { t[k] } else { false } });
+        assert!(asked == 3);
+        check_structure(&tree, t);
         kani::cover!(t[0] && !t[1] && t[2]);
+    }
+
+    /// the same tree with the real format!: the questions are exactly the paths m::a, m::b::1, m::b::22
+    #[kani::proof]
+    #[kani::unwind(12)]
+    fn retain_small_tree_paths() {
+        let t: [bool; 3] = kani::any();
+        let mut tree = tree();
+        let mut unexpected = false;
+        let mut asked = [0u8; 3];
+        EntryTree::retain(&mut tree, |p| {
+            if p == "m::a" { asked[0] += 1; t[0] } else if p == "m::b::1" { asked[1] += 1; t[1] } else if p == "m::b::22" { asked[2] += 1; t[2] }
+            else { unexpected = true; false }
+        });
+        assert!(!unexpected);
+        assert!(asked[0] == 1 && asked[1] == 1 && asked[2] == 1);
+        check_structure(&tree, t);
     }
 }
 """
@@ -161,13 +188,14 @@ def build(S: Sources) -> Unit:
         KaniHarness("verif_c13_filter::is_match_rule", "bounded", bound="up to 5 filters (any skip/positive pattern and insertion order), symbolic per-filter verdicts",
                     covers="FilterSet::include / exclude / is_match"),
         KaniHarness("verif_c13_filter::exact_is_whole_string_equality", "bounded", bound="candidate strings of up to 2 ASCII bytes against the filter \"ab\"", covers="Filter::is_match (Exact)"),
-        KaniHarness("verif_c13_tree::retain_small_tree", "bounded", bound="one tree: group m { a, b[1, 22] }, all 8 verdict combinations", covers="EntryTree::retain (paths, per-case decision, pruning of empty parents)"),
+        KaniHarness("verif_c13_tree::retain_small_tree_structure", "bounded", bound="one tree: group m { a, b[1, 22] }, all 8 verdict combinations; format! stubbed", covers="EntryTree::retain (per-case decision, pruning of empty parents)"),
+        KaniHarness("verif_c13_tree::retain_small_tree_paths", "bounded", bound="the same tree with the real format!", covers="EntryTree::retain (path text parent::child[::arg])", tier="thorough"),
     ]
     return Unit(
         property_id="C13",
         verus=[],
         kani=KaniSpec(injections={SPLIT: KANI_SPLIT, FILTER: KANI_FILTER, TREE: KANI_TREE}, harnesses=hs,
-                      stubs_note=["Filter::is_match -> per-filter symbolic verdict (in verif_c13_filter::is_match_rule only; the Exact arm is checked separately, the Regex arm delegates to the regex-lite dependency)"]),
+                      timeout_s=1500, stubs_note=["alloc::fmt::format -> empty string in verif_c13_tree::retain_small_tree_structure (path text is then not checked there)", "Filter::is_match -> per-filter symbolic verdict (in verif_c13_filter::is_match_rule only; the Exact arm is checked separately, the Regex arm delegates to the regex-lite dependency)"]),
         undecided_clauses=[
             "regular-expression search semantics of Filter::Regex (regex-lite dependency, not under contract)",
             "CLI positional / --skip / --exact arguments to filters (clap, Divan::config_with_args)",
